@@ -111,6 +111,11 @@ PARSING_QUERIES = [
     ('star-and-alias-without-header', 'select *, a1 as x'),
     ('aggregate-with-order-by', 'select a1, COUNT(*) order by a1'),
     ('aggregate-inside-expression', 'select str(COUNT(1)) + "x"'),
+    ('aggregate-method-call', 'select MAX(a1).strip()'),
+    ('aggregate-attribute', 'select a2, COUNT(a1).real group by a2'),
+    ('aggregate-as-dictionary-key', 'select {"5": "five"}[MIN(a1)]'),
+    ('aggregate-in-arithmetic', 'select SUM(a1) / 2'),
+    ('aggregate-in-format', 'select "%s" % MAX(a1)'),
     ('double-unnest', 'select UNNEST([1, 2]), UNNEST([3, 4])'),
     ('no-select-no-update', 'where a1 == "x"'),
     ('missing-join-table', 'select a1 join nosuch on a1 == b1'),
